@@ -1,87 +1,425 @@
 """C38 - flows from older mitmproxy versions load correctly.
 
-Decided (io/compat.py, version.py, io/io.py):
-  R38.1 converter chain: ``converters`` is a literal table; every converter function assigns exactly one constant next
-        version (unconditionally) and returns its data on every path; normalising versions as ``migrate_flow`` does
-        (non-int -> first N components), the chain from EVERY key reaches version.FLOW_FORMAT_VERSION without a
-        cycle or a gap; integer versions advance by exactly one; no function serves two versions; no converter for
-        the current version; tuple keys have the length migrate_flow compares; and each converter writes the
-        version under the key kind (bytes before the first convert_unicode in the chain, str from then on) that
-        ``migrate_flow`` reads first - a stale key of the other kind would be re-read forever.
-  R38.2 ``migrate_flow``: returns only after deciding ``version == FLOW_FORMAT_VERSION`` (so current states pass
-        through untouched - no converter runs after that decision - and unknown versions never slip through);
-        a version that is neither current nor in the table raises ValueError whose message carries the offending
-        version; known versions are converted by ``converters[version](data)`` and the result replaces the data;
-        ``FlowReader.stream`` turns that ValueError into FlowReadException.
-  R38.3 cross-record migration state ("every flow file written by a supported older version loads into valid current
-        flows"): some historical formats spread one current flow over several records (format <= 11: a WebSocket
-        handshake record and a later websocket record that refers to it by id; format <= 4: flows sharing a connection),
-        so converters keep module-level containers between records.  Records of different connections interleave
-        arbitrarily in old dumps, hence such a container may only be touched BY KEY from the code reachable from
-        ``converters`` / ``migrate_flow``: keyed insert (``X[k] = v`` / ``setdefault`` / ``update``), keyed lookup
-        (``X[k]`` / ``get`` / ``k in X``) and removal by the lookup that consumes the entry (``pop(k)`` whose value is
-        used, ``del X[k]`` next to a read of the same key).  Bulk or unkeyed eviction (``clear()``, ``popitem()``,
-        rebinding the global, a discarded ``pop``) loses the partner of a record that arrives later; a container that is
-        consumed but never filled loses every partner.  Any other use (``len``, iteration, aliasing) is refused (exit 2).
-NOT decided: what each converter does to the rest of the state (value-level migration), the historical dump files.
-Narrowed from DESIGN: "message distinguishes newer versions" is reduced to "the message contains the offending
-version" - the exact wording is not a necessary condition of an explanatory error.
+Decided (io/compat.py, version.py, io/io.py).  R38.1 / R38.2 are decided by INTERPRETING ``compat.migrate_flow`` and ``FlowReader.stream`` from
+their ASTs (mitmlint/pyint.py; nothing is imported or executed) on synthetic flow states of historical format versions - how the functions are
+written (local names, if/elif vs guard clauses, break vs return, helpers the version lookup or the error construction was moved into, logging,
+assertions, f-strings) does not matter, only what they do with those states:
+  R38.1 converter chain.  The converter table (the module-level mapping version -> converter function of compat.py, whatever it is called) is
+        evaluated.  ``migrate_flow`` is interpreted on entry states modelled on the shipped historical dumps - an HTTP flow of format (0, 11, x)
+        with bytes keys, a WebSocket handshake/messages pair and a lone messages record of format 7, an HTTP flow without response of format 10
+        - and every converter invocation is observed: the migration terminates (no converter runs twice for one state: a converter that does
+        not advance the version migrate_flow reads - wrong constant, wrong key kind bytes/str, result dropped - is applied again and again),
+        ends in a state whose ``version`` is version.FLOW_FORMAT_VERSION and that migrate_flow then leaves alone, never stops at a version
+        without converter, applies the rows in key order with integer versions advancing by exactly one and the last one reaching the
+        current version, and the entry states together exercise EVERY row of the table (a row nothing reaches - e.g. a tuple key of the
+        wrong length - is reported).  Table sanity on the evaluated mapping: no function serves two versions, no row for the current version.
+  R38.2 ``migrate_flow`` on the boundary: a state that already has the current version comes back untouched (same content, not modified in
+        place, no converter runs); unknown versions - the next integer, a far future integer, an unknown tuple - raise ValueError (no converter runs,
+        nothing is returned) whose message contains the offending version; ``FlowReader.stream``, interpreted on a one-record file of an
+        unknown version, raises FlowReadException; interpreted on files holding an old / a current record it hands ``Flow.from_state`` a
+        state of the current version (the reader really migrates).
+  R38.3 cross-record migration state ("every flow file written by a supported older version loads into valid current flows"): some historical
+        formats spread one current flow over several records (format <= 11: a WebSocket handshake record and a later websocket record that
+        refers to it by id; format <= 4: flows sharing a connection), so converters keep module-level containers between records.  Records of
+        different connections interleave arbitrarily in old dumps, hence such a container may only be touched BY KEY from the code reachable
+        from the converter table / ``migrate_flow``: keyed insert (``X[k] = v`` / ``setdefault`` / ``update``), keyed lookup (``X[k]`` /
+        ``get`` / ``k in X``) and removal by the lookup that consumes the entry (``pop(k)`` whose value is used, ``del X[k]`` next to a read
+        of the same key).  Bulk or unkeyed eviction (``clear()``, ``popitem()``, rebinding the global, a discarded ``pop``) loses the partner
+        of a record that arrives later; a container that is consumed but never filled loses every partner.  Any other use (``len``, iteration,
+        aliasing) is refused (exit 2).  In addition the interleaving itself is interpreted: two handshakes followed by their two message
+        records (in the other order) must each be joined with their own handshake.
+NOT decided: what each converter does to the rest of the state (value-level migration) beyond the paths the entry states take, the
+historical dump files themselves.
+Narrowed from DESIGN: "message distinguishes newer versions" is reduced to "the message contains the offending version" - the exact wording is
+not a necessary condition of an explanatory error.
 """
 
 from __future__ import annotations
 
 import ast
+import builtins
+import copy
+import io
+import time
+import uuid
 
 from ..core import AnalysisError
 from ..core import norm
-from ..model import attr_chain
 from ..model import last_attr
+from ..pyint import ClassRef
+from ..pyint import Func
+from ..pyint import Interp
+from ..pyint import NullLog
+from ..pyint import Raised
+from ..pyint import Rec
 from ..selftest import Mutant
-from ._helpers_E import dict_literal
-from ._helpers_E import params
 from ._helpers_E import expect
-from ._helpers_E import paths
-from ._helpers_E import raises_at
-from ._helpers_E import show
 
 PROP = "C38"
 REG = {
     "strength": "partial",
-    "technique": "literal-table chain analysis (converters x version constants) + path enumeration of migrate_flow and FlowReader.stream + use classification of the "
-    "module-level containers reachable from the converters",
-    "claim": "every historical format version in compat.converters is carried, step by step and without cycle or gap, to "
-    "version.FLOW_FORMAT_VERSION under the version key migrate_flow reads; migrate_flow is the identity on current-version states, "
-    "rejects unknown versions with a ValueError naming the version, and FlowReader.stream reports it as FlowReadException; the containers converters "
+    "technique": "AST interpretation (pyint) of migrate_flow / the converters / FlowReader.stream on synthetic historical flow states with every "
+    "converter invocation observed + use classification of the module-level containers reachable from the converters",
+    "claim": "synthetic states of the historical formats (0.11 HTTP, 7 WebSocket pair, 10 HTTP without response) are carried by the interpreted "
+    "migrate_flow, step by step in table order and without repeating a converter, to version.FLOW_FORMAT_VERSION, exercising every row of the "
+    "converter table; migrate_flow is the identity on current-version states, rejects unknown versions with a ValueError naming the version, and "
+    "the interpreted FlowReader.stream reports that as FlowReadException and hands Flow.from_state migrated states; the containers converters "
     "keep between records (WebSocket handshakes, connection ids) are only inserted into, looked up and consumed by key - never evicted in bulk.",
-    "note": "Does not decide what the converters do to the rest of the state. Loops unrolled twice.",
+    "note": "Decides the version bookkeeping of the chain on the paths the entry states take, not what the converters do to the rest of the state.",
 }
 
 CP = "mitmproxy/io/compat.py"
 VR = "mitmproxy/version.py"
 IO = "mitmproxy/io/io.py"
+TN = "mitmproxy/io/tnetstring.py"
+FLOW = "mitmproxy/flow.py"
 
 
-def _normaliser(ctx, mf):
-    """(version variable, N) from ``if not isinstance(v, int): v = tuple(v)[:N]`` in migrate_flow."""
-    for n in ast.walk(mf):
-        if isinstance(n, ast.Assign) and isinstance(n.value, ast.Subscript) and isinstance(n.value.slice, ast.Slice):
-            v = n.value
-            if isinstance(v.value, ast.Call) and last_attr(v.value.func) == "tuple" and v.slice.lower is None and isinstance(v.slice.upper, ast.Constant):
-                tgt = n.targets[0]
-                arg = v.value.args[0] if v.value.args else None
-                if isinstance(tgt, ast.Name) and isinstance(arg, ast.Name) and arg.id == tgt.id:
-                    guard = n._parent
-                    ok = isinstance(guard, ast.If) and ast.unparse(guard.test) == f"not isinstance({tgt.id}, int)"
-                    ctx.require(ok, f"migrate_flow: version normalisation is not guarded by 'not isinstance({tgt.id}, int)': {ast.unparse(guard)[:80]}")
-                    return tgt.id, v.slice.upper.value
-    ctx.require(False, "migrate_flow: version normalisation tuple(v)[:N] not found (shape not modelled)")
+# ---------------------------------------------------------------------------------------------------
+# the interpreter: pyint + exception values that keep their message, handler types resolved by evaluation (module constants), observed calls
+
+
+class _ExcVal(str):
+    """An exception instance: pyint's ``"<exc:Name>"`` marker that also remembers the constructor arguments; ``str(e)`` is the message."""
+
+    def __new__(cls, name, args=()):
+        o = str.__new__(cls, f"<exc:{name}>")
+        o.exc_name = name
+        o.exc_args = tuple(args)
+        return o
+
+    def __str__(self):
+        a = self.exc_args
+        return "" if not a else (str(a[0]) if len(a) == 1 else str(tuple(a)))
+
+    __repr__ = lambda self: f"{self.exc_name}({', '.join(repr(a) for a in self.exc_args)})"  # noqa: E731
+
+
+class _NullWarnings:
+    """trusted stand-in for the `warnings` module: warning about an old format has no effect on the migrated state"""
+
+    _pyint_accepts_abstract = True
+
+    def warn(self, *a, **k):
+        return None
+
+    def warn_explicit(self, *a, **k):
+        return None
+
+
+class _Endless(Exception):
+    def __init__(self, name):
+        super().__init__(name)
+        self.name = name
+
+
+_EXC_BASES = {n for n in dir(builtins) if isinstance(getattr(builtins, n), type) and issubclass(getattr(builtins, n), BaseException)}
+
+
+class _MInterp(Interp):
+    def __init__(self, model):
+        super().__init__(model, trusted_modules={"copy": copy, "uuid": uuid, "io": io, "time": time, "logging": NullLog(), "warnings": _NullWarnings()},
+                         max_depth=60, max_steps=3_000_000)
+        self.overrides[(TN, "memoryview")] = memoryview
+        self.watch: dict = {}  # id(FunctionDef) -> converter name
+        self.seq: list = []  # converter names in the order they ran (reset per scenario)
+        self.from_state_node = model.func(FLOW, "Flow.from_state")
+        self.handed: list = []  # states handed to Flow.from_state
+
+    # -- exceptions ------------------------------------------------------------------------------
+    def _is_exc_class(self, c: ClassRef) -> bool:
+        qual = getattr(c.node, "_qual", c.node.name)
+        return any(last_attr(b) in _EXC_BASES for _, cc in self.model.mro(c.mod.rel, qual) for b in cc.bases)
+
+    def ev_call(self, e, env, mod, depth):
+        f = e.func
+        root = f
+        while isinstance(root, ast.Attribute):
+            root = root.value
+        if isinstance(root, ast.Name) and root.id not in env:  # a module-level callee: looking it up twice is harmless
+            try:
+                v = self.ev(f, env, mod, depth)
+            except (AnalysisError, Raised):
+                v = None
+            name = v[1] if isinstance(v, tuple) and len(v) == 2 and v[0] == "$exc" else (v.node.name if isinstance(v, ClassRef) and self._is_exc_class(v) else None)
+            if name is not None:
+                args = self.elts(e.args, env, mod, depth)
+                for k in e.keywords:
+                    self.ev(k.value, env, mod, depth)
+                return _ExcVal(name, args)
+        return super().ev_call(e, env, mod, depth)
+
+    def _raise(self, v, node):
+        if isinstance(v, _ExcVal):
+            return Raised(v.exc_name, str(v))
+        if isinstance(v, str) and v.startswith("<exc:"):
+            return Raised(v[5:-1])
+        if isinstance(v, tuple) and len(v) == 2 and v[0] == "$exc":
+            return Raised(v[1])
+        if isinstance(v, ClassRef):
+            return Raised(v.node.name)
+        raise AnalysisError(f"pyint: raise of a value that is not an exception: {norm(node)[:80]}")
+
+    def stmt(self, st, env, mod, depth):
+        if isinstance(st, ast.Raise) and st.exc is not None:
+            self.tick()
+            raise self._raise(self.ev(st.exc, env, mod, depth), st)
+        return super().stmt(st, env, mod, depth)
+
+    def _handler_names(self, h, env, mod, depth):
+        if h.type is None:
+            return ["BaseException"]
+        try:
+            v = self.ev(h.type, env, mod, depth)
+        except (AnalysisError, Raised):
+            return [last_attr(x) for x in (h.type.elts if isinstance(h.type, ast.Tuple) else [h.type])]
+        out = []
+
+        def flat(x):
+            if isinstance(x, tuple) and len(x) == 2 and x[0] == "$exc":
+                out.append(x[1])
+            elif isinstance(x, ClassRef):
+                out.append(x.node.name)
+            elif isinstance(x, (tuple, list)):
+                for y in x:
+                    flat(y)
+            elif isinstance(x, type) and issubclass(x, BaseException):
+                out.append(x.__name__)
+            else:
+                raise AnalysisError(f"pyint: except clause names a non-exception: {norm(h.type)[:60]}")
+
+        flat(v)
+        return out
+
+    def try_(self, st, env, mod, depth):
+        try:
+            try:
+                self.block(st.body, env, mod, depth)
+            except Raised as r:
+                for h in st.handlers:
+                    if any(self.exc_isa(r.name, n, mod) for n in self._handler_names(h, env, mod, depth)):
+                        if h.name:
+                            env[h.name] = _ExcVal(r.name, (r.msg,) if r.msg else ())
+                        prev = env.get("$handling")
+                        env["$handling"] = r.name
+                        try:
+                            self.block(h.body, env, mod, depth)
+                        finally:
+                            if prev is None:
+                                env.pop("$handling", None)
+                            else:
+                                env["$handling"] = prev
+                        break
+                else:
+                    raise
+            else:
+                self.block(st.orelse, env, mod, depth)
+        finally:
+            if st.finalbody:
+                self.block(st.finalbody, env, mod, depth)
+
+    # -- observed calls --------------------------------------------------------------------------
+    def call_func(self, f: Func, args, kwargs, depth):
+        if f.node is self.from_state_node:
+            self.handed.append(args[-1] if args else kwargs.get("state"))
+            return Rec("Flow", _name="flow restored by the intercepted Flow.from_state")
+        name = self.watch.get(id(f.node))
+        if name is not None:
+            if name in self.seq:
+                raise _Endless(name)
+            self.seq.append(name)
+        return super().call_func(f, args, kwargs, depth)
+
+
+# ---------------------------------------------------------------------------------------------------
+# entry states: synthetic flow states of historical formats (structure modelled on the shipped dumps of those versions)
+
+
+def _entry_011():
+    """HTTP flow as mitmproxy 0.11 wrote it: bytes keys everywhere, three-component version, nested address records."""
+    def addr(host, port):
+        return {b"address": [host, port], b"use_ipv6": False}
+    return {
+        b"client_conn": {b"address": addr(b"127.0.0.1", 60786), b"clientcert": None, b"ssl_established": True, b"timestamp_end": None,
+                         b"timestamp_ssl_setup": 1469208634.706, b"timestamp_start": 1469208633.936},
+        b"error": None, b"id": b"e072a53a-711a-46b7-aaa5-ad61ac7e4459", b"intercepted": False,
+        b"request": {b"content": b"", b"form_in": b"relative", b"form_out": b"relative", b"headers": [[b"Host", b"example.com"], [b"Accept", b"*/*"]],
+                     b"host": b"example.com", b"httpversion": [1, 1], b"is_replay": False, b"method": b"GET", b"path": b"/", b"port": 443,
+                     b"scheme": b"https", b"timestamp_end": 1469208634.706, b"timestamp_start": 1469208634.706},
+        b"response": {b"code": 200, b"content": b"<!doctype html>", b"headers": [[b"Content-Type", b"text/html"]], b"httpversion": [1, 1],
+                      b"msg": b"OK", b"timestamp_end": 1469208634.797, b"timestamp_start": 1469208634.761},
+        b"server_conn": {b"address": addr(b"example.com", 443), b"cert": b"-----BEGIN CERTIFICATE-----", b"sni": b"example.com",
+                         b"source_address": addr(b"192.168.10.90", 60788), b"ssl_established": True, b"state": [], b"timestamp_end": None,
+                         b"timestamp_ssl_setup": 1469208634.325, b"timestamp_start": 1469208634.252, b"timestamp_tcp_setup": 1469208634.268},
+        b"type": b"http", b"version": [0, 11, 3],
+    }
+
+
+def _conn_7(cid, client):
+    c = {"address": ["::ffff:127.0.0.1", 52473, 0] if client else ["echo.websocket.org", 80], "alpn_proto_negotiated": None, "id": cid, "sni": None,
+         "timestamp_end": None, "timestamp_start": 1612375499.02, "timestamp_tls_setup": None, "tls_established": False, "tls_version": None}
+    if client:
+        c.update({"cipher_name": None, "clientcert": None, "mitmcert": None, "tls_extensions": None})
+    else:
+        c.update({"cert": None, "ip_address": ["174.129.224.73", 80], "source_address": ["192.168.188.20", 52474], "timestamp_tcp_setup": 1612375499.22, "via": None})
+    return c
+
+
+def _entry_7_handshake(fid, host=b"echo.websocket.org"):
+    return {
+        "client_conn": _conn_7("c-" + fid, True), "error": None, "id": fid, "intercepted": False, "marked": False, "metadata": {"websocket": True},
+        "mode": "transparent",
+        "request": {"content": b"", "first_line_format": "relative", "headers": [[b"Host", host]], "host": host, "http_version": b"HTTP/1.1",
+                    "is_replay": False, "method": b"GET", "path": b"/?encoding=text", "port": 80, "scheme": b"http",
+                    "timestamp_end": 1612375499.03, "timestamp_start": 1612375499.02},
+        "response": {"content": b"", "headers": [[b"Upgrade", b"websocket"]], "http_version": b"HTTP/1.1", "reason": b"Switching Protocols",
+                     "status_code": 101, "timestamp_end": 1612375499.4, "timestamp_start": None},
+        "server_conn": _conn_7("s-" + fid, False), "type": "http", "version": 7,
+    }
+
+
+def _entry_7_messages(fid, handshake_id, text="Rock it"):
+    return {
+        "client_conn": _conn_7("c-" + handshake_id, True), "client_extensions": "permessage-deflate", "client_key": "psOeQKar8m7Otzq5uzGAhw==",
+        "client_protocol": None, "close_code": 1005, "close_message": "(message missing)", "close_reason": "", "close_sender": "client",
+        "error": None, "id": fid, "intercepted": False, "marked": False, "messages": [[1, True, text], [1, False, text]],
+        "metadata": {"websocket_handshake": handshake_id}, "server_accept": "KHQasWKt4lBrFLDDBlc9uW9oLDc=",
+        "server_conn": dict(_conn_7("s-" + handshake_id, False), timestamp_end=1612375503.45), "server_extensions": None, "server_protocol": None,
+        "type": "websocket", "version": 7,
+    }
+
+
+def _entry_10():
+    def conn(client):
+        c = {"address": ["", 0] if client else [b"example.com", 443], "alpn_offers": [], "alpn_proto_negotiated": None, "certificate_list": [],
+             "cipher_list": [], "cipher_name": None, "error": None, "id": "8b758ba3" if client else "14ddf3ed", "sni": None if client else "example.com",
+             "state": 0, "timestamp_end": None, "timestamp_start": None, "timestamp_tls_setup": None, "tls": False, "tls_established": False,
+             "tls_version": "QUIC" if client else None}
+        if client:
+            c.update({"mitmcert": None, "sockname": ["", 0], "tls_extensions": None})
+        else:
+            c.update({"ip_address": ["example.com", 443], "source_address": ["", 0], "timestamp_tcp_setup": None, "via": None, "via2": None})
+        return c
+    return {
+        "client_conn": conn(True), "error": None, "id": "fac79186-100e-45ee-a9ab-f73692", "intercepted": False, "is_replay": None, "marked": True,
+        "metadata": {}, "mode": "regular",
+        "request": {"authority": b"", "content": b"", "headers": [[b"Host", b"example.com"]], "host": "example.com", "http_version": b"HTTP/1.1",
+                    "method": b"GET", "path": b"/", "port": 443, "scheme": b"https", "timestamp_end": 1621870806.73, "timestamp_start": 1621870806.72,
+                    "trailers": None},
+        "response": None, "server_conn": conn(False), "type": "http", "version": 10,
+    }
+
+
+def _entry_11():
+    """format 11 as mitmproxy 6 wrote it (connection records already restructured; `sni: True` = "use the address")"""
+    st = _entry_10()
+    st["version"] = 11
+    for c in ("client_conn", "server_conn"):
+        st[c]["alpn"] = st[c].pop("alpn_proto_negotiated")
+    st["server_conn"]["sni"] = True
+    st["server_conn"]["address"] = ["example.com", 443]
+    st["response"] = {"content": b"ok", "headers": [], "http_version": b"HTTP/1.1", "reason": b"OK", "status_code": 200,
+                      "timestamp_end": 1621870807.0, "timestamp_start": 1621870806.9, "trailers": None}
+    st["marked"] = False
+    return st
+
+
+def _tnet(v) -> bytes:
+    """tnetstring encoding (format specification + mitmproxy's `;` text tag) of a synthetic state, for the interpreted reader"""
+    if v is None:
+        return b"0:~"
+    if v is True or v is False:
+        body, tag = (b"true" if v else b"false"), b"!"
+    elif isinstance(v, int):
+        body, tag = str(v).encode(), b"#"
+    elif isinstance(v, float):
+        body, tag = repr(v).encode(), b"^"
+    elif isinstance(v, bytes):
+        body, tag = v, b","
+    elif isinstance(v, str):
+        body, tag = v.encode("utf8"), b";"
+    elif isinstance(v, (list, tuple)):
+        body, tag = b"".join(_tnet(x) for x in v), b"]"
+    elif isinstance(v, dict):
+        body, tag = b"".join(_tnet(k) + _tnet(x) for k, x in v.items()), b"}"
+    else:
+        raise AnalysisError(f"C38: synthetic state holds an unserialisable {type(v).__name__}")
+    return str(len(body)).encode() + b":" + body + tag
+
 
 _KEYED_READ = {"get", "setdefault", "__getitem__", "__contains__"}
 _KEYED_STORE = {"setdefault", "update", "__setitem__"}
 _EVICT = {"clear": "clear() drops every pending entry", "popitem": "popitem() drops an entry chosen by insertion order, not by the record that refers to it"}
 
 
-def _cross_record_state(ctx, rows):
+_MUTATORS = {"pop", "popitem", "clear", "update", "setdefault", "append", "extend", "insert", "remove", "add", "discard", "sort", "reverse", "appendleft", "popleft",
+             "__setitem__", "__delitem__"}
+
+
+def _param_untouched(funcs, g, param, seen) -> bool:
+    """True when function ``g`` never changes the object bound to its parameter ``param`` (nor the values reached by iterating over it): no item /
+    attribute store or delete, no mutating method, no rebinding or aliasing, handed on only to module functions that do not touch it either."""
+    key = (g.name, param)
+    if key in seen:
+        return True  # on a cycle: decided by the other uses
+    seen = seen | {key}
+    derived = {param}
+    for _ in range(3):  # loop targets over the parameter / its .items() / .values() / .keys() denote parts of the same object
+        for n in ast.walk(g):
+            if isinstance(n, (ast.For, ast.comprehension)):
+                it = n.iter
+                if isinstance(it, ast.Call) and isinstance(it.func, ast.Attribute) and it.func.attr in ("items", "values", "keys") and not it.args:
+                    it = it.func.value
+                if isinstance(it, ast.Name) and it.id in derived:
+                    derived |= {x.id for x in ast.walk(n.target) if isinstance(x, ast.Name)}
+    for n in ast.walk(g):
+        if not (isinstance(n, ast.Name) and n.id in derived):
+            continue
+        p = n._parent
+        if isinstance(n.ctx, (ast.Store, ast.Del)):
+            if isinstance(p, (ast.For, ast.comprehension, ast.Tuple)) or isinstance(p, ast.arg):
+                continue  # the loop target itself
+            return False
+        if isinstance(p, (ast.Subscript, ast.Attribute)) and p.value is n:
+            if isinstance(p.ctx, (ast.Store, ast.Del)):
+                return False
+            pp = getattr(p, "_parent", None)
+            if isinstance(p, ast.Attribute) and isinstance(pp, ast.Call) and pp.func is p and p.attr in _MUTATORS:
+                return False
+            if isinstance(p, ast.Subscript):
+                # an element read out of it: fine unless that element is then changed in place (x[k][j] = ..): refuse nested stores
+                q, child = pp, p
+                while isinstance(q, (ast.Subscript, ast.Attribute)) and q.value is child:
+                    if isinstance(q.ctx, (ast.Store, ast.Del)) or (isinstance(q, ast.Attribute) and q.attr in _MUTATORS):
+                        return False
+                    q, child = getattr(q, "_parent", None), q
+            continue
+        if isinstance(p, ast.Subscript) and p.slice is n:
+            continue  # used as a key / index into something else
+        call = p if isinstance(p, ast.Call) else (p._parent if isinstance(p, ast.keyword) and isinstance(getattr(p, "_parent", None), ast.Call) else None)
+        if call is not None and call.func is not n:
+            if isinstance(call.func, ast.Name) and call.func.id in funcs:
+                h = funcs[call.func.id]
+                hp = [a.arg for a in h.args.posonlyargs + h.args.args]
+                if isinstance(p, ast.keyword):
+                    tgt = p.arg
+                elif n in call.args and not any(isinstance(a, ast.Starred) for a in call.args) and call.args.index(n) < len(hp):
+                    tgt = hp[call.args.index(n)]
+                else:
+                    return False
+                if tgt is None or not _param_untouched(funcs, h, tgt, seen):
+                    return False
+                continue
+            if isinstance(call.func, ast.Name) and call.func.id in ("len", "bool", "isinstance", "sorted", "list", "tuple", "dict", "set", "frozenset", "iter", "enumerate", "repr", "str", "any", "all"):
+                continue
+            return False  # handed to something we cannot see into
+        if isinstance(p, (ast.Compare, ast.BoolOp, ast.UnaryOp, ast.If, ast.While, ast.IfExp, ast.For, ast.comprehension)):
+            continue  # tested / iterated
+        return False  # returned, aliased, stored somewhere: not modelled
+    return True
+
+
+def _cross_record_state(ctx, rows, tname="converters"):
     """R38.3: classify every use of a module-level mutable container in the code reachable from converters/migrate_flow."""
     mod = ctx.model.module(CP)
     containers = {}
@@ -91,7 +429,7 @@ def _cross_record_state(ctx, rows):
             tg, val = st.targets[0].id, st.value
         elif isinstance(st, ast.AnnAssign) and isinstance(st.target, ast.Name) and st.value is not None:
             tg, val = st.target.id, st.value
-        if tg is None or tg == "converters":
+        if tg is None or tg == tname:
             continue
         if isinstance(val, (ast.Dict, ast.List, ast.Set)) or (isinstance(val, ast.Call) and last_attr(val.func) in ("dict", "list", "set", "OrderedDict", "defaultdict", "deque", "WeakValueDictionary")):
             containers[tg] = st
@@ -173,6 +511,19 @@ def _cross_record_state(ctx, rows):
                 uses[c]["read"].append(f"{fname}: {norm(p.left)} in {c}")
                 keyed_reads.add((c, norm(p.left)))
                 continue
+            # handed to a module function that only reads the corresponding parameter (a constant table passed on): a read
+            call = p if isinstance(p, ast.Call) else (p._parent if isinstance(p, ast.keyword) and isinstance(getattr(p, "_parent", None), ast.Call) else None)
+            if call is not None and isinstance(call.func, ast.Name) and call.func.id in funcs and call.func.id not in shadow:
+                g = funcs[call.func.id]
+                gparams = [a.arg for a in g.args.posonlyargs + g.args.args]
+                target = None
+                if isinstance(p, ast.keyword):
+                    target = p.arg if p.arg in gparams + [a.arg for a in g.args.kwonlyargs] else None
+                elif n in call.args and not any(isinstance(a, ast.Starred) for a in call.args) and call.args.index(n) < len(gparams):
+                    target = gparams[call.args.index(n)]
+                if target is not None and _param_untouched(funcs, g, target, set()):
+                    uses[c]["read"].append(f"{fname}: {c} handed to {g.name}({target}=...) which only reads it")
+                    continue
             unknown.append(f"{fname}: {norm(p)[:80]}")
         for c, k, node in dels:
             if (c, k) in keyed_reads:
@@ -189,6 +540,11 @@ def _cross_record_state(ctx, rows):
     for c, u in sorted(uses.items()):
         if not (u["store"] or u["read"] or u["consume"]):
             continue
+        init = containers[c].value
+        prefilled = (isinstance(init, ast.Dict) and init.keys) or (isinstance(init, (ast.List, ast.Set)) and init.elts) or (isinstance(init, ast.Call) and (init.args or init.keywords))
+        if prefilled and not u["store"] and not u["consume"]:
+            ctx.note(f"R38.3: {c} is a constant table (filled where it is defined, only read by the converters): not cross-record state")
+            continue
         live += 1
         if (u["read"] or u["consume"]) and not u["store"]:
             ctx.fail("R38.3", (CP, "<module>", containers[c]), f"{c}: looked up but never filled",
@@ -199,251 +555,267 @@ def _cross_record_state(ctx, rows):
 
 
 
+def _converter_table(ctx, it):
+    """The converter table: the module-level mapping of compat.py whose values are all functions (evaluated, not read as a literal)."""
+    mod = ctx.model.module(CP)
+    found = []
+    for st in mod.tree.body:
+        tg = st.targets[0] if isinstance(st, ast.Assign) and len(st.targets) == 1 else (st.target if isinstance(st, ast.AnnAssign) and st.value is not None else None)
+        if not isinstance(tg, ast.Name):
+            continue
+        try:
+            v = it.modconst(mod, tg.id, 0)
+        except (AnalysisError, Raised):
+            continue
+        if isinstance(v, dict) and len(v) >= 5 and all(isinstance(f, Func) and isinstance(f.node, ast.FunctionDef) for f in v.values()):
+            found.append((tg.id, st, v))
+    if len(found) > 1:
+        # several mappings (e.g. the table assembled from per-era parts): the one migrate_flow works with is the one that contains the others
+        full = [f for f in found if all(set(g[2].items()) <= set(f[2].items()) or g is f for g in found)]
+        names = {n.id for fn in _reachable(mod, "migrate_flow").values() for n in ast.walk(fn) if isinstance(n, ast.Name)}
+        used = [f for f in found if f[0] in names]
+        found = full[:1] if len(full) == 1 and (not used or full[0] in used) else used
+    ctx.require(len(found) == 1, f"compat.py: expected one module-level table version -> converter function, found {[n for n, _, _ in found]}")
+    return found[0]
+
+
+def _reachable(mod, start: str) -> dict:
+    """module-level functions of ``mod`` reachable from ``start`` by name (called or passed on)"""
+    funcs = {d.name: d for d in mod.tree.body if isinstance(d, (ast.FunctionDef, ast.AsyncFunctionDef))}
+    reach, todo = {}, [start]
+    while todo:
+        name = todo.pop()
+        if name in reach or name not in funcs:
+            continue
+        reach[name] = funcs[name]
+        todo.extend(n.id for n in ast.walk(funcs[name]) if isinstance(n, ast.Name) and n.id in funcs and n.id not in reach)
+    return reach
+
+
+def _vkey(k):
+    """sort key of a format version: the tuple era precedes the integer era"""
+    return (0, tuple(k)) if isinstance(k, tuple) else (1, (k,))
+
+
 def check(ctx):
-    ctx.rule("R38.1", "converter table: constant next versions, chain from every key reaches FLOW_FORMAT_VERSION (no cycle/gap, ints +1, key kind consistent with what migrate_flow reads)")
-    ctx.rule("R38.2", "migrate_flow: identity on the current version, ValueError naming the version for unknown ones, conversion result replaces the data; stream maps it to FlowReadException")
+    ctx.rule("R38.1", "converter chain (interpreted): historical entry states reach FLOW_FORMAT_VERSION step by step in table order, no converter repeats, every table row is exercised")
+    ctx.rule("R38.2", "migrate_flow (interpreted): identity on the current version, ValueError naming the version for unknown ones; FlowReader.stream reports it as FlowReadException and restores migrated states")
     ctx.rule("R38.3", "cross-record migration state (module-level containers reachable from converters) is inserted into, looked up and consumed by key only - no bulk/unkeyed eviction, never consumed without being filled")
     m = ctx.model
     cur = m.literal(VR, "FLOW_FORMAT_VERSION")
     ctx.require(isinstance(cur, int) and not isinstance(cur, bool), f"FLOW_FORMAT_VERSION is not an int: {cur!r}")
     mf = ctx.func(CP, "migrate_flow")
-    vvar, ncomp = _normaliser(ctx, mf)
+    stream = ctx.func(IO, "FlowReader.stream")
+    ctx.require(len(mf.args.posonlyargs + mf.args.args) == 1, "migrate_flow no longer takes exactly the flow state")
+    where_mf, where_tab = (CP, "migrate_flow", mf), (CP, "<module>", 0)
 
-    def normv(v):
-        return v if isinstance(v, int) else tuple(v)[:ncomp]
+    def fresh():
+        it = _MInterp(m)
+        tname, tnode, table = _converter_table(ctx, it)
+        it.watch = {id(f.node): f.node.name for f in table.values()}
+        return it, tname, tnode, table
 
-    # which key does migrate_flow read first?
-    reads = [n for n in ast.walk(mf) if isinstance(n, ast.Assign) and any(isinstance(t, ast.Name) and t.id == vvar for t in n.targets) and isinstance(n.value, ast.Call) and last_attr(n.value.func) == "get"]
-    ctx.require(len(reads) == 1, "migrate_flow: version read (data.get(k1, data.get(k2))) not found")
-    g = reads[0].value
-    dvar = attr_chain(g.func.value)
-    inner = g.args[1] if len(g.args) == 2 else None
-    ok = (dvar and isinstance(g.args[0], ast.Constant) and isinstance(inner, ast.Call) and last_attr(inner.func) == "get" and attr_chain(inner.func.value) == dvar
-          and len(inner.args) == 1 and isinstance(inner.args[0], ast.Constant))
-    ctx.require(ok, f"migrate_flow: version read has an unmodelled shape: {ast.unparse(g)}")
-    k1, k2 = g.args[0].value, inner.args[0].value
-    ctx.require({k1, k2} == {b"version", "version"}, f"migrate_flow reads the version from {k1!r}/{k2!r}")
-    primary_bytes = isinstance(k1, bytes)
+    it, tname, tnode, table = fresh()
+    where_tab = (CP, "<module>", tnode)
+    rows = {k: f.node.name for k, f in table.items()}
+    ctx.require(len(rows) >= 20, f"{tname} has only {len(rows)} rows")
+    ctx.cells += len(rows)
+    for k in rows:
+        ctx.require((isinstance(k, int) and not isinstance(k, bool)) or (isinstance(k, tuple) and all(isinstance(x, int) for x in k)),
+                    f"{tname}: key {k!r} is neither an integer nor a tuple of integers")
+    for name in rows.values():
+        ctx.functions.add(f"{CP}::{name}")
 
-    # ---- R38.1 the table
-    table = dict_literal(m.const(CP, "converters"), "compat.converters")
-    rows = {}
-    funcs_used = {}
+    def migrate(interp, state):
+        """('ok', result, converters run) | ('raise', name, msg, converters run) | ('endless', converter, converters run)"""
+        interp.seq = []
+        ctx.paths += 1
+        try:
+            return ("ok", interp.call(CP, "migrate_flow", state), list(interp.seq))
+        except Raised as r:
+            return ("raise", r.name, r.msg, list(interp.seq))
+        except _Endless as e:
+            return ("endless", e.name, list(interp.seq))
+
+    # ---- R38.1 table sanity on the evaluated mapping
     tbad = False
-    for k, v in table:
-        try:
-            key = ast.literal_eval(k)
-        except Exception:
-            ctx.require(False, f"converters key is not a literal: {ast.unparse(k)}")
-        ctx.require(isinstance(v, ast.Name) and m.has(CP, v.id), f"converters[{key!r}] is not a module-level function name: {ast.unparse(v)}")
-        ctx.cells += 1
-        if key in rows:
+    by_func: dict = {}
+    for k, name in rows.items():
+        if name in by_func:
             tbad = True
-            ctx.fail("R38.1", (CP, "<module>", k), f"converters: duplicate key {key!r}", "two converters for one version: the first is silently dropped")
-        if isinstance(key, tuple) and len(key) != ncomp:
-            tbad = True
-            ctx.fail("R38.1", (CP, "<module>", k), f"converters: key {key!r}", f"migrate_flow compares the first {ncomp} components, so this key can never match: files of that version are rejected")
-        if v.id in funcs_used:
-            tbad = True
-            ctx.fail("R38.1", (CP, "<module>", k), f"converters: {v.id} serves {funcs_used[v.id]!r} and {key!r}", "one converter registered for two versions: one of them is migrated by the wrong step")
-        funcs_used[v.id] = key
-        rows[key] = v.id
-    ctx.require(len(rows) >= 20, f"converters has only {len(rows)} rows")
-
-    nxt, kind, uni = {}, {}, {}
-    for key, fname in rows.items():
-        fn = ctx.func(CP, fname)
-        ps = params(fn, drop_self=False)
-        ctx.require(len(ps) == 1, f"{fname} no longer takes exactly the flow state")
-        data = ps[0]
-        writes = []
-        for n in ast.walk(fn):
-            if isinstance(n, ast.Assign):
-                for t in n.targets:
-                    if isinstance(t, ast.Subscript) and attr_chain(t.value) == data and isinstance(t.slice, ast.Constant) and t.slice.value in (b"version", "version"):
-                        writes.append((n, t.slice.value))
-        if not writes:
-            tbad = True
-            ctx.fail("R38.1", (CP, fname, fn), f"{fname}: no version assignment", "the converter does not advance the version: migrate_flow applies it again and again")
-            continue
-        ctx.require(len(writes) == 1 and writes[0][0] in fn.body, f"{fname}: version assigned {len(writes)}x or conditionally - shape not modelled")
-        node, wkey = writes[0]
-        try:
-            val = ast.literal_eval(node.value)
-        except Exception:
-            ctx.require(False, f"{fname}: next version is not a constant: {ast.unparse(node.value)}")
-        nxt[key] = normv(val)
-        kind[key] = "bytes" if isinstance(wkey, bytes) else "str"
-        # convert_unicode applied (and its result bound to the data variable) before the version write?
-        uni[key] = any(isinstance(s, ast.Assign) and isinstance(s.value, ast.Call) and last_attr(s.value.func) == "convert_unicode" and attr_chain(s.targets[0]) == data
-                       and s.lineno < node.lineno for s in fn.body)
-        # returns its data on every path
-        trs, eng = paths(fn, keep=lambda e: e[0] == "return", record_conds=False)
-        ctx.paths += len(trs)
-        rets = {tuple(e[1] for e in t if e[0] == "return") for t, how in trs if how == "return"}
-        if rets != {(data,)}:
-            tbad = True
-            ctx.fail("R38.1", (CP, fname, fn), f"{fname}: returns {sorted(rets)}", "a converter path does not return the state: migrate_flow continues with None")
-
-    # chain from every key
-    n_chain = 0
-    for key in rows:
-        if key not in nxt:
-            continue
-        seen, k = [key], key
-        why = None
-        while True:
-            if k not in nxt:
-                why = f"version {k!r} has no usable converter"
-                break
-            n = nxt[k]
-            if isinstance(k, int) and n != k + 1:
-                why = f"converter for integer version {k} produces {n!r}, not {k + 1} (a migration step is skipped or repeated)"
-                break
-            if n == cur:
-                break
-            if n in seen:
-                why = f"cycle {seen + [n]!r}"
-                break
-            if n not in rows:
-                why = f"chain stops at {n!r}, which is neither in converters nor the current version {cur}"
-                break
-            seen.append(n)
-            k = n
-        ctx.cells += 1
-        if why:
-            tbad = True
-            ctx.fail("R38.1", (CP, "converters", 0), f"chain: {why}", f"files of historical versions (e.g. {key!r}) cannot be migrated to the current format")
-        else:
-            n_chain += 1
-            ctx.ok("R38.1", f"{rows[key]}: chain from {key!r} reaches {cur} in {len(seen)} step(s)")
+            ctx.fail("R38.1", where_tab, f"{tname}: {name} serves {by_func[name]!r} and {k!r}", "one converter registered for two versions: one of them is migrated by the wrong step")
+        by_func.setdefault(name, k)
+    if isinstance(tnode.value, ast.Dict):
+        seen = set()
+        for kn in tnode.value.keys:
+            t = norm(kn) if kn is not None else None
+            if t is not None and t in seen:
+                tbad = True
+                ctx.fail("R38.1", where_tab, f"{tname}: duplicate key {t}", "two converters for one version: the first is silently dropped")
+            seen.add(t)
     if cur in rows:
         tbad = True
-        ctx.fail("R38.1", (CP, "<module>", 0), f"converters has a row for the current version {cur}", "current-format states would not pass through unchanged")
+        ctx.fail("R38.1", where_tab, f"{tname} has a row for the current version {cur}", "current-format states would not pass through unchanged")
 
-    # key kind along the (unique) chain
-    roots = [k for k in rows if k not in set(nxt.values())]
-    if not tbad:
-        ctx.require(len(roots) == 1, f"converters: expected one oldest version, found {roots!r}")
-        order, k = [], roots[0]
-        while k in rows and k not in order:
-            order.append(k)
-            k = nxt[k]
-        ctx.require(primary_bytes, "migrate_flow now prefers the str 'version' key: key-kind rule must be re-derived")
-        converted = False
-        for k in order:
-            converted = converted or uni[k]
-            want = "str" if converted else "bytes"
+    # ---- R38.1 the chain, observed on the entry states
+    hs, ms = "468a3735-e4c2-4dea-b6e7-827a47", "bb2e201b-2e25-471d-8cc7-a08f6f"
+    entries = [
+        ("HTTP flow of format (0, 11, 3) (bytes keys)", [_entry_011()]),
+        ("WebSocket handshake + messages records of format 7", [_entry_7_handshake(hs), _entry_7_messages(ms, hs)]),
+        ("WebSocket messages record of format 7 without its handshake", [_entry_7_messages(ms, "missing-handshake")]),
+        ("HTTP flow without response of format 10 (marked, QUIC client)", [_entry_10()]),
+        ("HTTP flow of format 11 (server sni recorded as True)", [_entry_11()]),
+    ]
+    exercised: set = set()
+    key_of = {name: k for k, name in rows.items()}
+    for label, records in entries:
+        it_e = fresh()[0]  # one file: the records of one entry share the cross-record state
+        for idx, state in enumerate(records):
+            res = migrate(it_e, state)
+            ran = res[-1]
+            exercised.update(ran)
+            what = f"{label}" + (f", record {idx + 1}" if len(records) > 1 else "")
+            keys = [key_of[n] for n in ran]
+            problem = None
+            if res[0] == "endless":
+                problem = (f"converter {res[1]} is applied a second time to the same state (after {', '.join(ran[-3:])}): the version migrate_flow reads did not advance "
+                           "(wrong next version, version written under the other key kind, or the converted state dropped) - the migration never ends")
+            elif res[0] == "raise":
+                problem = (f"the migration stops after {ran[-1] if ran else 'no converter'} with {res[1]}: {str(res[2])[:120]} - files of that historical version cannot be "
+                           "migrated to the current format (chain gap, missing row, or a converter that fails on / does not return the state)")
+            else:
+                out = res[1]
+                if not isinstance(out, dict) or out.get("version") != cur:
+                    problem = f"the migrated state has version {out.get('version') if isinstance(out, dict) else type(out).__name__!r}, not the current {cur}"
+                else:
+                    again = migrate(it_e, out)
+                    if again[0] != "ok" or again[-1] or again[1] != out:
+                        problem = "migrate_flow does not leave the state it just produced alone (it is not recognised as current)"
+                if problem is None:
+                    for a, b in zip(keys, keys[1:] + [cur]):
+                        if isinstance(a, int) and b != a + 1:
+                            problem = f"after the converter for integer version {a} the one for {b!r} runs, not {a + 1} (a migration step is skipped or repeated)"
+                            break
+                        if _vkey(b) <= _vkey(a):
+                            problem = f"converters run out of order: {a!r} then {b!r}"
+                            break
             ctx.cells += 1
-            if kind[k] != want:
+            if problem:
                 tbad = True
-                ctx.fail("R38.1", (CP, rows[k], 0), f"{rows[k]}: writes the {kind[k]} version key",
-                         f"at this point of the chain the state has {want} keys; migrate_flow reads b'version' first, so a stale key of the other kind is read again (endless/failed migration)")
-        ctx.require(any(uni.values()), "no converter applies convert_unicode any more: key-kind rule must be re-derived")
+                ctx.fail("R38.1", where_mf, f"chain from {what}", problem)
+            else:
+                ctx.ok("R38.1", f"{what}: {len(ran)} converter(s) {keys[0]!r}..{keys[-1]!r} in table order, none twice, result has version {cur} and is left alone")
+    unreached = sorted((k for k, n in rows.items() if n not in exercised), key=_vkey)
+    if unreached and not tbad:
+        oldest = min(rows, key=_vkey)
+        if _vkey(oldest) < _vkey((0, 11)):
+            raise AnalysisError(f"R38.1: {tname} has rows older than the oldest synthetic entry state (0, 11): {unreached!r} - extend the entry states")
+        tbad = True
+        ctx.fail("R38.1", where_tab, f"{tname}: rows {unreached!r} are never reached",
+                 "the chain from the oldest format never arrives at these keys (a key migrate_flow's normalised version can never equal, or a gap before it): "
+                 "files of that version are rejected")
     if not tbad:
-        ctx.ok("R38.1", f"{len(rows)} converters: constant next version, return data; {n_chain} chains reach {cur}; ints +1; key kinds consistent (bytes until {next(rows[k] for k in order if uni[k])})")
-        ctx.sample({"chain": [repr(k) for k in order] + [cur]})
+        ctx.ok("R38.1", f"{len(rows)} converters, each serving one version, all exercised by the entry states; no row for the current version {cur}")
+        ctx.sample({"chain": [repr(k) for k in sorted(rows, key=_vkey)] + [cur]})
 
-    # ---- R38.2 migrate_flow paths
-    dps = params(mf, drop_self=False)
-    ctx.require(len(dps) == 1 and dps[0] == dvar, "migrate_flow: data parameter changed")
-
-    def is_eq(x):
-        if isinstance(x, ast.Compare) and len(x.ops) == 1 and isinstance(x.ops[0], ast.Eq):
-            sides = {ast.unparse(x.left), ast.unparse(x.comparators[0])}
-            return sides == {vvar, "version.FLOW_FORMAT_VERSION"}
-        return False
-
-    def is_member(x):
-        return isinstance(x, ast.Compare) and len(x.ops) == 1 and isinstance(x.ops[0], ast.In) and ast.unparse(x.left) == vvar and ast.unparse(x.comparators[0]) == "converters"
-
-    def classify(e):
-        if e[0] != "cond":
-            return None
-        x = ast.parse(e[1], mode="eval").body
-        if is_eq(x):
-            return ("eq", e[2])
-        if is_member(x):
-            return ("in", e[2])
-        return None
-
-    conv_call = f"converters[{vvar}]"
-    trs, eng = paths(mf, unroll=2, keep=lambda e: (e[0] == "call" and e[1].startswith("converters")) or (e[0] == "assign" and e[1] in (vvar, dvar)) or e[0] == "raise")
-    ctx.paths += len(trs)
-    bad = False
-    n_ret = n_rej = n_conv = 0
-    for t, how in trs:
-        probs = []
-        # segment the trace at version reads
-        last_eq = None
-        for i, e in enumerate(t):
-            c = classify(e)
-            if e[0] == "assign" and e[1] == vvar and ".get(" in e[2]:
-                last_eq = None
-            elif c and c[0] == "eq":
-                last_eq = c[1]
-            elif e[0] == "call" and e[1].startswith("converters"):
-                n_conv += 1
-                if last_eq is True:
-                    probs.append("a converter runs although the state already has the current version (current states must pass through unchanged)")
-                good = e[1] == conv_call and e[2] == (dvar,) and i + 1 < len(t) and t[i + 1][0] == "assign" and t[i + 1][1] == dvar
-                if not good:
-                    probs.append(f"conversion is not '{dvar} = converters[{vvar}]({dvar})': the converted state is lost or the wrong converter runs")
-        if how == "return":
-            n_ret += 1
-            if last_eq is not True:
-                probs.append("returns without having decided version == FLOW_FORMAT_VERSION: unknown or unmigrated versions are passed on as current flows")
-        elif how.startswith("raise:"):
-            decided = [classify(e) for e in t if classify(e)]
-            if decided[-2:] and ("in", False) in decided[-2:] and ("eq", True) not in decided[-2:]:
+    # ---- R38.2 migrate_flow on the boundary
+    bad2 = False
+    it2 = fresh()[0]
+    current = {"version": cur, "type": "http", "id": "c0ffee", "metadata": {"k": ["v"]}, "marked": "", "comment": "current"}
+    snap = copy.deepcopy(current)
+    res = migrate(it2, current)
+    ctx.cells += 1
+    if res[0] != "ok" or res[1] != snap or current != snap or res[-1]:
+        bad2 = True
+        why = (f"raises {res[1]}: {str(res[2])[:100]}" if res[0] == "raise" else f"runs {res[-1]}" if res[-1] else "returns a different / modified state" if res[0] == "ok" else f"never ends ({res[1]})")
+        ctx.fail("R38.2", where_mf, "migrate_flow: state of the current version", f"a state that already has version {cur} must pass through unchanged, but migrate_flow {why}")
+    else:
+        ctx.ok("R38.2", f"migrate_flow: a state of the current version {cur} comes back untouched (equal content, nothing modified in place, no converter runs)")
+    n_rej = 0
+    for v, shown in ((cur + 1, str(cur + 1)), (98765, "98765"), ([97, 53, 1], "(97, 53)")):
+        ctx.require((tuple(v[:2]) if isinstance(v, list) else v) not in rows, f"probe version {v!r} is in the table")
+        res = migrate(it2, {"version": v, "type": "http", "id": "f00"})
+        ctx.cells += 1
+        if res[0] == "raise" and res[1] == "ValueError" and not res[-1]:
+            if shown in str(res[2]):
                 n_rej += 1
-                if how != "raise:ValueError":
-                    probs.append(f"unknown versions are rejected with {how[6:]}, not ValueError (FlowReader.stream converts ValueError)")
-        for p in probs:
-            bad = True
-            ctx.fail("R38.2", (CP, "migrate_flow", mf), f"migrate_flow: path [{show([e for e in t if e[0] in ('cond', 'call', 'raise')], 8)}]", p)
-    if not bad and n_ret == 0:
-        bad = True
-        ctx.fail("R38.2", (CP, "migrate_flow", mf), "migrate_flow: no returning path", "a state that already has the current version is not returned")
-    if not bad and n_rej == 0:
-        bad = True
-        ctx.fail("R38.2", (CP, "migrate_flow", mf), "migrate_flow: no rejecting path", "a version that is neither current nor in converters is not rejected with an error")
-    if not bad and n_conv == 0:
-        bad = True
-        ctx.fail("R38.2", (CP, "migrate_flow", mf), "migrate_flow: no converting path", "known historical versions are not converted")
-    if not bad:
-        ctx.ok("R38.2", f"migrate_flow: {len(trs)} paths (return only after ==current; converters[v](data) replaces data; unknown -> ValueError)")
+            else:
+                bad2 = True
+                ctx.fail("R38.2", where_mf, "migrate_flow: rejection message", f"the ValueError for the unknown flow format version {v!r} reads {str(res[2])[:120]!r}: "
+                         "it does not contain the offending version - not an explanatory error")
+        else:
+            bad2 = True
+            got = ("is accepted as a current flow" if res[0] == "ok" and not res[-1] else f"is run through {res[-1]}" if res[-1] else
+                   f"raises {res[1]}, not ValueError (FlowReader.stream converts ValueError)" if res[0] == "raise" else "never ends")
+            ctx.fail("R38.2", where_mf, f"migrate_flow: unknown version {'newer than' if isinstance(v, int) and v > cur else 'other than'} the current one",
+                     f"a state of the unknown flow format version {v!r} {got}: unknown versions must be rejected with an explanatory ValueError")
+    if n_rej == 3:
+        ctx.ok("R38.2", f"migrate_flow: unknown versions {cur + 1}, 98765, (97, 53) raise ValueError naming the version; no converter runs")
 
-    # the error names the offending version
-    raises = [n for n in ast.walk(mf) if isinstance(n, ast.Raise) and n.exc is not None]
-    ctx.require(raises, "migrate_flow has no raise statement") if not bad else None
-    for r in raises:
-        names = {n.id for n in ast.walk(r.exc) if isinstance(n, ast.Name)}
-        for s in ast.walk(mf):  # one level of local string-building definitions (not flags derived from the version)
-            if isinstance(s, ast.Assign) and isinstance(s.value, (ast.Call, ast.JoinedStr, ast.BinOp)) and any(isinstance(t, ast.Name) and t.id in names for t in s.targets):
-                names |= {n.id for n in ast.walk(s.value) if isinstance(n, ast.Name)}
-        ctx.check(vvar in names, "R38.2", (CP, "migrate_flow", r), f"raise {last_attr(r.exc)}(...)",
-                  "the rejection message does not contain the offending flow format version: not an explanatory error",
-                  desc="rejection message carries the version")
+    # FlowReader.stream, interpreted on one-record files
+    def read_one(state):
+        it_s = fresh()[0]
+        ctx.paths += 1
+        try:
+            # FlowReader(fo): the constructor is interpreted too, so whatever it sets up is there
+            rec = it_s.apply(ClassRef(m.module(IO), m.cls(IO, "FlowReader")), [io.BufferedReader(io.BytesIO(_tnet(state)))], {}, 0)
+            gen = it_s.method(rec, "stream")
+            first = next(iter(gen))
+            return ("yield", first, it_s.handed)
+        except StopIteration:
+            return ("stop", None, it_s.handed)
+        except Raised as r:
+            return ("raise", r.name, r.msg)
+        except _Endless as e:
+            return ("endless", e.name, None)
 
-    # stream maps the ValueError
-    stream = ctx.func(IO, "FlowReader.stream")
-    mcalls = [c for c in ast.walk(stream) if isinstance(c, ast.Call) and last_attr(c.func) == "migrate_flow"]
-    ctx.require(len(mcalls) == 1, f"FlowReader.stream calls migrate_flow {len(mcalls)}x")
-    trs, eng = paths(stream, keep=lambda e: e[0] == "raise", record_conds=False,
-                     may_raise=raises_at(mcalls[0], ["ValueError"]))
-    ctx.paths += len(trs)
-    outcomes = {how for t, how in trs if any(e[0] == "except" and e[1] == "ValueError" for e in t) or how == "raise:ValueError"}
-    ctx.check(outcomes and outcomes <= {"raise:FlowReadException"}, "R38.2", (IO, "FlowReader.stream", stream), "stream: ValueError from migrate_flow",
-              f"the rejection of an unknown flow format version leaves stream() as {sorted(outcomes) or 'an unhandled ValueError'} instead of FlowReadException",
-              desc="stream: ValueError from migrate_flow -> FlowReadException")
+    where_st = (IO, "FlowReader.stream", stream)
+    res = read_one({"version": 98765, "type": "http", "id": "f00"})
+    ctx.cells += 1
+    okr = res[0] == "raise" and res[1] == "FlowReadException"
+    ctx.check(okr, "R38.2", where_st, "stream: ValueError from migrate_flow",
+              f"reading a file whose record has the unknown flow format version 98765 {'raises ' + str(res[1]) + ': ' + str(res[2])[:80] if res[0] == 'raise' else 'yields a flow' if res[0] == 'yield' else 'ends silently'} "
+              "instead of raising FlowReadException", desc="stream: a record of an unknown version -> FlowReadException")
+    bad2 = bad2 or not okr
+    for label, state in (("format (0, 11, 3)", _entry_011()), (f"the current format {cur}", dict(current))):
+        res = read_one(state)
+        ctx.cells += 1
+        handed = res[2] if res[0] == "yield" else None
+        okh = res[0] == "yield" and len(handed) == 1 and isinstance(handed[0], dict) and handed[0].get("version") == cur
+        got = (f"raises {res[1]}: {str(res[2])[:80]}" if res[0] == "raise" else "yields nothing" if res[0] == "stop" else "never ends" if res[0] == "endless" else
+               f"hands Flow.from_state {[h.get('version') if isinstance(h, dict) else type(h).__name__ for h in handed]!r}")
+        ctx.check(okh, "R38.2", where_st, f"stream: record of {label.split(' ')[0]} format reaches Flow.from_state migrated",
+                  f"reading a one-record file of {label}: stream {got} instead of restoring the flow from a state of version {cur}",
+                  desc=f"stream: a record of {label} is handed to Flow.from_state with version {cur}")
+        bad2 = bad2 or not okh
 
     # ---- R38.3 state carried between records
-    ctx.guard(_cross_record_state, ctx, rows)
+    ctx.guard(_cross_record_state, ctx, rows, tname)
+    ctx.guard(_interleaved_handshakes, ctx, fresh()[0], migrate, cur)
 
-    expect(ctx, "R38.1", 29 + 1)
-    expect(ctx, "R38.2", 3)
-    expect(ctx, "R38.3", 3)
+    expect(ctx, "R38.1", sum(len(r) for _, r in entries) + 1)
+    expect(ctx, "R38.2", 5)
+    expect(ctx, "R38.3", 4)
+
+
+def _interleaved_handshakes(ctx, it, migrate, cur):
+    """Two connections whose records interleave (handshake A, handshake B, messages B, messages A): each messages record must be joined with
+    the handshake it names."""
+    a, b = "aaaa1111-0000-4000-8000-000000000001", "bbbb2222-0000-4000-8000-000000000002"
+    recs = [_entry_7_handshake(a, b"a.example"), _entry_7_handshake(b, b"b.example"), _entry_7_messages("m-b", b, "to b"), _entry_7_messages("m-a", a, "to a")]
+    outs = [migrate(it, r) for r in recs]
+    mf = ctx.func(CP, "migrate_flow")
+    if any(o[0] != "ok" or not isinstance(o[1], dict) for o in outs):
+        return  # reported by R38.1 on the plain entry states
+    wrong = []
+    for o, host, text in ((outs[2], b"b.example", "to b"), (outs[3], b"a.example", "to a")):
+        st = o[1]
+        req, ws = st.get("request") or {}, st.get("websocket") or {}
+        if req.get("host") != host or not ws or [m[2] for m in ws.get("messages", [])][:1] != [text]:
+            wrong.append(f"messages '{text}' joined with the handshake of {req.get('host')!r}")
+    ctx.check(not wrong, "R38.3", (CP, "migrate_flow", mf), "interleaved WebSocket records of two connections",
+              f"{'; '.join(wrong)}: the handshake kept for a later messages record was lost or mixed up, the migrated flow is not the one that was saved",
+              desc="interleaved handshakes A, B and messages B, A: each messages record is joined with its own handshake")
 
 
 MUTANTS = [
@@ -473,5 +845,13 @@ MUTANTS = [
            "        if _websocket_handshakes:\n            _websocket_handshakes.popitem()\n        _websocket_handshakes[data[\"id\"]] = copy.deepcopy(data)\n", "R38.3"),
     Mutant("handshake-never-remembered", CP, "    if \"websocket\" in data[\"metadata\"]:\n        _websocket_handshakes[data[\"id\"]] = copy.deepcopy(data)\n\n", "", "R38.3"),
     Mutant("connection-ids-forgotten-per-flow", CP, "def convert_4_5(data):\n    data[\"version\"] = 5\n", "def convert_4_5(data):\n    data[\"version\"] = 5\n    server_connections.clear()\n", "R38.3"),
+    Mutant("stream-skips-migration", IO, "yield flow.Flow.from_state(compat.migrate_flow(loaded))", "yield flow.Flow.from_state(loaded)", "R38.2"),
+    Mutant("version-bump-only-when-marked", CP, "def convert_12_13(data):\n    data[\"version\"] = 13\n    if data[\"marked\"]:\n        data[\"marked\"] = \":default:\"\n",
+           "def convert_12_13(data):\n    if data[\"marked\"]:\n        data[\"version\"] = 13\n        data[\"marked\"] = \":default:\"\n", "R38.1"),
+    Mutant("normalisation-keeps-three-components", CP, "flow_version = tuple(flow_version)[:2]", "flow_version = tuple(flow_version)[:3]", "R38.1"),
+    Mutant("older-unknown-version-passed-through", CP, "        elif flow_version in converters:\n            flow_data = converters[flow_version](flow_data)\n        else:\n",
+           "        elif flow_version in converters:\n            flow_data = converters[flow_version](flow_data)\n        elif not isinstance(flow_version, int):\n            break\n        else:\n", "R38.2"),
+    Mutant("handshake-remembered-under-connection-id", CP, "        _websocket_handshakes[data[\"id\"]] = copy.deepcopy(data)\n",
+           "        _websocket_handshakes[data[\"client_conn\"][\"id\"]] = copy.deepcopy(data)\n", "R38.3"),
     Mutant("rejection-not-mapped", IO, "raise exceptions.FlowReadException(e) from e\n            except (\n                ValueError,\n", "raise\n            except (\n", "R38.2"),
 ]
